@@ -88,4 +88,67 @@ pub fn run(rec: &mut Recorder, w: &mut World, tier: &str, seed: u64) {
         rec.nontrivial_case(&format!("{}|{}|{:?}|{:?}|{}", m.m[0].2, mode, rules, links, descr.join("|")));
         if ci < 3 { rec.sample(format!("matcher={} mode={} rules={:?} links={:?} steps={}", m.m[0].2, mode, rules, links, descr.join(" ; "))); }
     }
+    // ---- pattern role names (implementation only: a role-matching function is installed on the role
+    //      manager before any link exists, so the graph maintains its match edges incrementally) ----
+    let n_pat = (if tier == "thorough" { 3000 } else { 400 }) * rec.budget as usize;
+    let base = ks.iter().find(|k| k.name == "rbac").unwrap().clone();
+    let m = model_of(&base, E_ALLOW, false, "", false);
+    let pnames = ["alice", "bob", "guest", "reader", "*", "b*", "gu*"];
+    let subs = ["alice", "bob", "guest", "reader", "*", "bo"];
+    let mut reqs: Vec<Vec<String>> = vec![];
+    for s in subs { for o in ["data1", "data2"] { for a in ["read", "write"] { reqs.push(vec![sval(s), sval(o), sval(a)]); } } }
+    let reqf = enc_reqs(&reqs);
+    for _ in 0..n_pat {
+        rec.begin();
+        m.emit(rec, w);
+        let r0 = rec.exec_impl_only(w, "e.new\tmemory\t-\t\t-");
+        if r0 != "ok" { rec.fail("new-failed", format!("pattern-role stream: cannot build the enforcer: {}", r0)); continue; }
+        rec.exec_impl_only(w, "e.rolematch\tkeyMatch\t-");
+        let mut before = rec.exec_impl_only(w, &format!("e.enfs\t{}", reqf));
+        let mut descr: Vec<String> = vec![];
+        let mut links: Vec<Vec<String>> = vec![];
+        let mut rules: Vec<Vec<String>> = vec![];
+        // half of the histories are guided: a pattern name linked to a role that holds a rule, a concrete name the
+        // pattern matches made known to the graph, then a link between the pattern and that very name; the rest is random
+        let mut script: Vec<(String, &str)> = vec![];
+        if rng.chance(1, 2) {
+            let (pat, name) = *rng.pick(&[("*", "guest"), ("*", "bob"), ("b*", "bob"), ("gu*", "guest"), ("*", "reader")]);
+            let role = *rng.pick(&["reader", "guest", "alice"]);
+            let r = sv(&[role, *rng.pick(&["data1", "data2"]), *rng.pick(&["read", "write"])]);
+            rules.push(r.clone());
+            let mut pre = vec![(MOp::Add("p".into(), "p".into(), r).line(), "add-rule")];
+            let l1 = sv(&[*rng.pick(&["alice", "bob", "reader"]), name]);
+            if l1[0] != l1[1] { links.push(l1.clone()); pre.push((MOp::Add("g".into(), "g".into(), l1).line(), "add-link")); }
+            if pat != role { let l2 = sv(&[pat, role]); links.push(l2.clone()); pre.push((MOp::Add("g".into(), "g".into(), l2).line(), "add-link")); }
+            for i in (1..pre.len()).rev() { let j = rng.below(i + 1); pre.swap(i, j); }
+            let l3 = sv(&[pat, name]); links.push(l3.clone());
+            pre.push((MOp::Add("g".into(), "g".into(), l3).line(), "add-link"));
+            script = pre;
+            script.reverse();
+            rec.count("pattern-roles:guided-history");
+        }
+        for _ in 0..3 + rng.below(8) + script.len() {
+            let (line, kind): (String, &str) = if let Some(x) = script.pop() { x } else { match rng.below(8) {
+                0 | 1 => { let r = sv(&[*rng.pick(&["guest", "reader", "alice", "*"]), *rng.pick(&["data1", "data2"]), *rng.pick(&["read", "write"])]); rules.push(r.clone()); (MOp::Add("p".into(), "p".into(), r).line(), "add-rule") }
+                2 => { if rules.is_empty() { continue; } let i = rng.below(rules.len()); (MOp::Rm("p".into(), "p".into(), rules.remove(i)).line(), "remove-rule") }
+                3..=5 => { let r = sv(&[*rng.pick(&pnames), *rng.pick(&pnames)]); if r[0] == r[1] { continue; } links.push(r.clone()); (MOp::Add("g".into(), "g".into(), r).line(), "add-link") }
+                _ => { if links.is_empty() { continue; } let i = rng.below(links.len()); (MOp::Rm("g".into(), "g".into(), links.remove(i)).line(), "remove-link") }
+            } };
+            let store_was_empty = rec.exec_impl_only(w, "e.get\tp\tp") == "-";
+            rec.exec_impl_only(w, &line);
+            descr.push(line.replace('\t', " "));
+            let after = rec.exec_impl_only(w, &format!("e.enfs\t{}", reqf));
+            let (gb, ga) = (granted(&before), granted(&after));
+            let viol = if kind.starts_with("add") { incl(&gb, &ga).map(|i| (i, "an addition revoked a grant")) } else { incl(&ga, &gb).map(|i| (i, "a removal granted a request")) };
+            rec.count(&format!("pattern-roles:{}", kind));
+            if let Some((i, what)) = viol {
+                let store_is_empty = rec.exec_impl_only(w, "e.get\tp\tp") == "-";
+                let sig = if (store_was_empty && kind == "add-rule") || (store_is_empty && kind == "remove-rule") { "empty-store-grant" } else { "not-monotone-pattern-roles" };
+                rec.fail(sig, format!("[rbac allow-override, role matching fn keyMatch] {}: request {:?} went {} -> {} after {}", what, reqs[i], &before[i..i + 1], &after[i..i + 1], descr.join(" ; ")));
+            }
+            if after.contains('t') { rec.count("pattern-roles:state-with-grants"); }
+            before = after;
+        }
+        rec.nontrivial_case(&format!("pattern|{}", descr.join("|")));
+    }
 }
